@@ -84,7 +84,11 @@ def step (σ : St) (op obs : List String) : St × List Msg :=
     let converged := match σ.implEntries with
       | [] => true
       | e :: rest => rest.all (· = e)
-    let healthy : Bool := present && offDiagOk && accs.all id && decide (spread ≤ σ.cfg.repeatI) && converged
+    -- the ticks of the round (flush instant − lateness) must lie within repeat_interval of each other (Round.ticks / hskew)
+    let lv := ((lates.headD "").splitOn ",").filterMap String.toInt?
+    let tks := (skv.zip (lv ++ List.replicate skv.length 0)).map fun (a, b) => a - b
+    let tspread := (tks.foldl max (tks.headD 0)) - (tks.foldl min (tks.headD 0))
+    let healthy : Bool := present && offDiagOk && accs.all id && decide (spread ≤ σ.cfg.repeatI) && decide (tspread ≤ σ.cfg.repeatI) && converged
     ({ σ with firing := f, resolved := r, acc := accs, healthy, roundSends := 0, roundSends1 := 0, inRound := true, pending := [], gcInst := none },
       [.tag (if healthy then "round:healthy" else "round:faulty")] ++ (if σ.n > 1 then [.tag "round:multi"] else [])
         ++ (if lates.any (fun l => (l.splitOn ",").any (fun x => x ≠ "0")) then [.tag "round:late-tick"] else []))
